@@ -221,18 +221,22 @@ def cli_cases(draw, tier):
     record['grid'] = draw(st.sampled_from(['1.0', '2.0', '5.0', '2.5']))
     levels = [v for _, v in record['wl']]
     lo, hi = min(levels), max(levels)
-    kind = draw(st.sampled_from(['spline', 'spline', 'peatclsm']))
-    if kind == 'spline':
+    # the two sections of a parameter file choose their kind independently
+    sy_kind = draw(st.sampled_from(['spline', 'spline', 'peatclsm']))
+    t_kind = draw(st.sampled_from([sy_kind, sy_kind, 'spline', 'peatclsm']))
+    if sy_kind == 'spline':
         sy = draw(gen_params.spline_sy(min_gap=5.0, positive=True))
         z = sy['zeta_knots_mm']
         shift = (lo - 10.0) - z[0]
         sy['zeta_knots_mm'] = [round(v + shift, 4) for v in z]
+    else:
+        sy = draw(gen_params.peatclsm_sy())
+    if t_kind == 'spline':
         T = draw(gen_params.spline_T(min_gap=5.0, min_n=2, max_n=5))
         zt = T['zeta_knots_mm']
         shift_t = (hi + draw(st.floats(1.0, 50.0))) - zt[-1]
         T['zeta_knots_mm'] = [round(v + shift_t, 4) for v in zt]
     else:
-        sy = draw(gen_params.peatclsm_sy())
         T = draw(gen_params.peatclsm_T())
         T['zeta_max_cm'] = round(hi / 10 + draw(st.floats(0.5, 30.0)), 3)
     record['parameters'] = {'specific_yield': sy, 'transmissivity': T}
@@ -368,6 +372,8 @@ def check_cli(case):
     knots = sorted(knots)
     labels = {sy_p['type'], 'curvature-zero' if curvature == 0
               else 'curvature-positive'}
+    if sy_p['type'] != T_p['type']:
+        labels.add('mixed-parameterisation')
     if labels_extra:
         labels.add(labels_extra)
     varying = len(set(et_values)) > 1
